@@ -49,6 +49,8 @@ def build(term):
     k = term[0]
     if k == 'nop':
         return T
+    if k == 'valnop':
+        return Val('filler')
     if k == 'fail':
         return T['__no_such_key__']
     if k == 'bind':
@@ -142,6 +144,8 @@ def ev(term, target, parent, g, log):
     k = term[0]
     if k == 'nop':
         return target, F
+    if k == 'valnop':
+        return 'filler', F
     if k == 'fail':
         raise RefFail()
     if k == 'bind':
@@ -282,7 +286,7 @@ def kinds_in(term):
     k = term[0]
     if k in ('bind', 'read'):
         return [k + ':' + term[1]]
-    if k in ('nop', 'fail'):
+    if k in ('nop', 'fail', 'valnop'):
         return [k]
     out = [k]
     for kid in term[1]:
@@ -367,6 +371,10 @@ def cases_for_shape(shape, rich):
                             v = list(base)
                             v[r] = ['bind', 'S' if bkind != 'R' else 'R', name, 'c%d' % r]
                             out.append([fill(shape, v), None, False])
+                        # a Val(..) step elsewhere (a spec kind that an implementation may be tempted to short-cut)
+                        v = list(base)
+                        v[r] = ['valnop']
+                        out.append([fill(shape, v), None, bkind == 'V'])
                         # a second reader
                         v = list(base)
                         v[r] = ['read', rkinds[0], name, 'q%d' % r]
@@ -379,6 +387,11 @@ def gen_cases(tier):
     cases = []
     for s in d2:
         cases.extend(cases_for_shape(s, rich=(tier != 'quick' or count_slots(s) <= 3)))
+    # flat chains of three steps whose first step is itself a construct (bindings made inside it must not reach steps 2 and 3)
+    for a in shapes(1):
+        for c in ('tuple', 'pipe'):
+            cases.extend(cases_for_shape([c, [a, SLOT, SLOT]], rich=True))
+            cases.extend(cases_for_shape([c, [SLOT, a, SLOT]], rich=(tier != 'quick')))
     # depth 3: one slot of a depth-2 shape replaced by a depth-1 shape
     d1 = [s for s in shapes(1) if s != SLOT]
     step = 1 if tier != 'quick' else 12
@@ -441,6 +454,13 @@ def menu():
     out.append(('inner-shadows-outer', lambda: glom(1, (S(k=Val('o')), ((S(k=Val('i')), S.k), S.k))), 'o'))
     out.append(('inner-shadows-outer-2', lambda: glom(1, (S(k=Val('o')), {'x': (S(k=Val('i')), S.k), 'y': S.k})), {'x': 'i', 'y': 'o'}))
     out.append(('ref-nearest-enclosing', lambda: glom(1, Ref('r', {'a': Ref('r', Val('inner')), 'b': Val(2)})), {'a': 'inner', 'b': 2}))
+    def shared_bare_ref():
+        from glom import M
+        use = Ref('r')      # ONE bare Ref object placed below two different definitions of the name, in one call and across calls
+        body_a = Switch([(M == 0, Val('A0')), (M == 1, (Val(0), use))])
+        body_b = Switch([(M == 0, Val('B0')), (M == 1, (Val(0), use))])
+        return (glom(1, {'a': Ref('r', body_a), 'b': Ref('r', body_b)}), glom(1, Ref('r', body_b)), glom(1, Ref('r', body_a)))
+    out.append(('one-bare-ref-object-under-two-definitions', shared_bare_ref, ({'a': 'A0', 'b': 'B0'}, 'B0', 'A0')))
     out.append(('ref-recursion', lambda: glom([1, [2, [3]]], Ref('r', Coalesce([Ref('r')], T))), [1, [2, [3]]]))
 
     def caller_untouched():
